@@ -8,6 +8,7 @@
 #include "romea_core_common/time/Time.hpp"
 #include "romea_core_common/regression/ransac/Ransac.hpp"
 #include "romea_core_common/regression/ransac/RansacModel.hpp"
+#include "romea_core_common/regression/ransac/RansacIterations.hpp"
 #include "romea_core_common/regression/leastsquares/NLSE.hpp"
 #include "romea_core_common/log/SimpleFileLogger.hpp"
 #include "romea_core_common/math/EulerAngles.hpp"
@@ -163,6 +164,26 @@ static void misc(vh::Rng & r, vh::Out & out)
     bool ok = true;
     long long j02 = vh::proj(between0And2Pi(v) / (M_PI / 4), ok, 1e-6), jpi = vh::proj(betweenMinusPiAndPi(v) / (M_PI / 4), ok, 1e-6);
     out.put(vh::Ev("wrap").i("k", k).i("j02", j02).i("jpi", jpi).b("ex", ok));
+  }
+  {
+    // RansacIterations: the bound is a running minimum of floor(log(1 - p) / log(1 - w^k)), w = inliers / points; p = 1 - 2^-pk
+    long long N = r.range(2, 6), pk = r.range(1, 4), maxIt = r.coin() ? r.range(0, 12) : r.range(13, 2000);
+    RansacIterations it((size_t)N, (float)(1.0 - std::ldexp(1.0, -(int)pk)), (size_t)maxIt);
+    std::vector<IV> ups;
+    long long prev = (long long)it.get();
+    bool first = prev == maxIt;
+    int nup = (int)r.range(1, 6);
+    for (int u = 0; u < nup; ++u) {
+      long long i = r.range(0, N), k = r.range(1, 2);
+      it.update((size_t)i, (size_t)k);
+      long long now = (long long)it.get();
+      long long b = 1; for (int j = 0; j < k; ++j) {b *= N;}
+      long long e = now < prev ? now + 1 : prev;                              // highest power the specification needs
+      double big = std::pow((double)b, (double)e) * std::ldexp(1.0, (int)pk);
+      ups.push_back(IV{i, k, now, big < 1e9 ? 1 : 0});
+      prev = now;
+    }
+    out.put(vh::Ev("ransacit").i("N", N).i("pk", pk).i("maxIt", maxIt).b("first", first).mat("ups", ups));
   }
   {
     long long x2 = r.range(-40, 40), y2 = r.range(-40, 40), a = r.range(-40, 40), b = r.range(-40, 40);
